@@ -553,7 +553,7 @@ impl Process for SortProcess {
 //@@ safety C03 C18 C15
 //@@ endfn
 //@@ fn sorter.complete = src/sorters.rs :: impl Process for SortProcess :: fn complete
-//@@ safety C07 C08 C03 C16 C20
+//@@ safety C07 C08 C03 C16 C20 C09
 //@@ body-start
         let ghost b0 = self.bk();
         proof {
@@ -677,7 +677,7 @@ impl Process for SortProcess {
         proof { assert(emit(self.is_asc(), b0).add(Seq::empty()) =~= emit(self.is_asc(), b0)); }
 //@@ endfn
 //@@ fn sorter.process = src/sorters.rs :: impl Process for SortProcess :: fn process
-//@@ safety C07 C08 C03 C05
+//@@ safety C07 C08 C03 C05 C09
 //@@ before "self.data.entry(key).or_default().push_front(context);"
             let ghost k0 = key;
             let ghost v0 = self.data.view();
